@@ -1,3 +1,544 @@
-/- C04: property theorems (stub, not yet built) -/
+/-
+C04 — New capacity is opened only when existing capacity cannot admit the pod.
+
+Property theorems only (helper lemmas: `Karp/Proofs/ProvisionLemmas.lean`, `Karp/Proofs/Sched.lean`).
+Model: `Karp/Model/Provision.lean` (StateNode view, `Scheduler.add`, Synced gate) over `Karp/Model/Sched.lean`
+       (`ExistingNode.CanAdd/Add`, instance-type filter).
+Spec:  `Karp/Spec/NeedCapacity.lean` — evaluated by the driver on the commit traces of real passes and two-pass
+       histories (ops `c04.history`, `c04.repass`, `c04.pass`); the model itself is tied to the code by `c04.view`,
+       `c04.synced`, the replay inside `c04.history`/`c04.pass`, and `c01.existing`.
+-/
+import Karp.Proofs.ProvisionLemmas
+
 namespace Karp.C04
+open Karp.Req Karp.Scn Karp.Sched Karp.Provision
+open Karp.Gen.C04Flow
+
+/-! ## Fact expectations over the regenerated source facts -/
+
+/-- `Scheduler.add` tries existing nodes, then the NodeClaims of the pass, then a new NodeClaim — in this order -/
+theorem fact_add_order : addCalls = ["addToExistingNode", "addToInflightNode", "addToNewNodeClaim"] := by decide
+/-- and returns as soon as one of them succeeded (`err == nil` after each attempt) -/
+theorem fact_add_returns : addConds.drop 2 = ["err == nil", "err == nil", "len(s.nodeClaimTemplates) == 0", "err == nil"] := by decide
+/-- `trySchedule` relaxes only after a whole `add` (existing, in-flight AND new) failed -/
+theorem fact_relax_after_add : tryScheduleCalls = ["add", "Relax"] := by decide
+/-- `ExistingNode.CanAdd`: taints, volume limits, host ports, resources, requirements -/
+theorem fact_existing_canAdd : existingCanAddCalls = ["ToleratesPod", "ExceedsLimits", "Conflicts", "Fits", "Compatible"] := by decide
+theorem fact_existing_fits : existingCanAddConds.take 5 =
+    ["err != nil", "err != nil", "err != nil", "!resources.Fits(podData.Requests, n.remainingResources)", "err != nil"] := by decide
+/-- the existing nodes of a pass are built from `StateNode.Taints()` and the daemonsets compatible with the node -/
+theorem fact_existing_nodes : existingNodeCalls = ["Taints", "getCompatibleDaemonPods", "NewExistingNode"] := by decide
+
+/-- one provisioning round: batch, Synced gate, pass, create -/
+theorem fact_reconcile_order : reconcileCalls = ["Wait", "Synced", "Schedule", "CreateNodeClaims"] := by decide
+/-- the gate returns before the pass when the cluster is not synced -/
+theorem fact_reconcile_gate : reconcileSyncedGate = "!p.cluster.Synced(ctx)" := by decide
+/-- the pass schedules against `nodes.Active()`: nodes marked for deletion are not capacity -/
+theorem fact_schedule_active : scheduleStateNodesArg = "nodes.Active()" := by decide
+theorem fact_active_filter : activeReturns = ["lo.Filter(n, (func", "!node.MarkedForDeletion()"] := by decide
+theorem fact_marked_for_deletion : stateNodeMarkedForDeletionReturns = ["in.markedForDeletion || in.Deleted()"] := by decide
+/-- `Provisioner.Create` tells cluster state about the NodeClaim right after the API create … -/
+theorem fact_create_order : createCalls = ["ExceededBy", "ToNodeClaim", "Create", "UpdateNodeClaim"] := by decide
+/-- … and `UpdateNodeClaim` records the (still empty) provider id under the NodeClaim's name, unconditionally -/
+theorem fact_update_records :
+    updateNodeClaimRecords = ["c.nodeClaimNameToProviderID[nodeClaim.Name] = nodeClaim.Status.ProviderID"] ∧
+    updateNodeClaimConds = ["nodeClaim.Status.ProviderID != \"\"", "ok"] := by decide
+/-- `Synced` refuses on both paths (already synced / first sync) while some recorded provider id is empty -/
+theorem fact_synced_conds : (syncedConds.drop 3) =
+    ["c.hasSynced.Load()", "providerID == \"\"", "err != nil", "err != nil", "providerID == \"\"", "synced"] := by decide
+
+/-- which representation the scheduler looks at, per lifecycle stage -/
+theorem fact_view_taints : stateNodeTaintsConds =
+    ["(!in.Registered() && in.Managed()) || in.Node == nil", "!in.Initialized() && in.Managed()",
+     "scheduling.IsKnownEphemeralTaint(&taint)", "found"] ∧
+    stateNodeTaintsReturns = ["lo.Reject(taints, (func", "true", "t.MatchTaint(&taint)", "true", "false", "taints"] := by decide
+theorem fact_view_labels : stateNodeLabelsConds = ["in.Node == nil", "in.NodeClaim == nil", "!in.Registered()"] ∧
+    stateNodeLabelsReturns = ["in.NodeClaim.Labels", "in.Node.Labels", "in.NodeClaim.Labels", "in.Node.Labels"] := by decide
+theorem fact_view_allocatable :
+    stateNodeAllocatableConds = ["!in.Initialized() && in.NodeClaim != nil", "in.Node != nil", "resources.IsZero(ret[resourceName])"] ∧
+    stateNodeAllocatableReturns = ["ret", "in.NodeClaim.Status.Allocatable", "in.Node.Status.Allocatable"] := by decide
+theorem fact_view_stage_labels :
+    stateNodeRegisteredReturns = ["in.Node != nil && in.Node.Labels[v1.NodeRegisteredLabelKey] == \"true\"", "true"] ∧
+    stateNodeInitializedReturns = ["in.Node != nil && in.Node.Labels[v1.NodeInitializedLabelKey] == \"true\"", "true"] ∧
+    stateNodeManagedReturns = ["in.NodeClaim != nil"] ∧
+    nodeRegisteredLabelKey = "karpenter.sh/registered" ∧ nodeInitializedLabelKey = "karpenter.sh/initialized" := by decide
+/-- the taints a starting node is expected to carry: kubelet's not-ready / unreachable, the cloud controller's
+    uninitialized taint and Karpenter's own unregistered taint (the property text: "known-ephemeral taints") -/
+theorem fact_ephemeral_table :
+    knownEphemeralTaints.map (fun t => (t.1, t.2.2)) =
+      [("node.kubernetes.io/not-ready", "NoSchedule"), ("node.kubernetes.io/not-ready", "NoExecute"),
+       ("node.kubernetes.io/unreachable", "NoSchedule"), ("node.cloudprovider.kubernetes.io/uninitialized", "NoSchedule"),
+       ("karpenter.sh/unregistered", "NoExecute")] ∧
+    knownEphemeralTaintKeyPrefixes = ["readiness.k8s.io/"] ∧ isKnownEphemeralTaintCalls = ["MatchTaint", "HasPrefix"] := by decide
+
+/-! ## 1. The guard of OpenNew -/
+
+/-- the guard: no existing node and no NodeClaim of the pass admits the pod in the current state -/
+def Needed {κ : Type} (ops : ClaimOps κ) (s : Pass κ) (p : PodD) : Prop :=
+  (∀ e ∈ s.existing, existingCanAdd e p = false) ∧ (∀ c ∈ s.claims, ops.canAdd c p = false)
+
+/-- **C04_open_only_if_needed** — whatever the admission function of the pass's NodeClaims is: if `Scheduler.add` opens a
+    new NodeClaim for a pod, then in the state of that moment EVERY existing node refuses the pod (`ExistingNode.CanAdd`)
+    and EVERY NodeClaim opened earlier in the pass refuses it. -/
+theorem C04_open_only_if_needed {κ : Type} (ops : ClaimOps κ) (s : Pass κ) (p : PodD)
+    (h : addDecision ops s p = .openNew) : Needed ops s p := by
+  unfold addDecision at h
+  cases h1 : firstIdx (fun e => existingCanAdd e p) s.existing with
+  | some i => rw [h1] at h; simp at h
+  | none =>
+    rw [h1] at h
+    simp only at h
+    cases h2 : firstIdx (fun c => ops.canAdd c p) s.claims with
+    | some j => rw [h2] at h; simp at h
+    | none => exact ⟨firstIdx_none _ _ h1, firstIdx_none _ _ h2⟩
+
+/-- a pod goes to a NodeClaim of the pass only if every existing node refuses it; the chosen NodeClaim admits it -/
+theorem C04_inflight_only_if_no_existing {κ : Type} (ops : ClaimOps κ) (s : Pass κ) (p : PodD) (j : Nat)
+    (h : addDecision ops s p = .inflight j) :
+    (∀ e ∈ s.existing, existingCanAdd e p = false) ∧ ∃ c, s.claims[j]? = some c ∧ ops.canAdd c p = true := by
+  unfold addDecision at h
+  cases h1 : firstIdx (fun e => existingCanAdd e p) s.existing with
+  | some i => rw [h1] at h; simp at h
+  | none =>
+    rw [h1] at h
+    simp only at h
+    cases h2 : firstIdx (fun c => ops.canAdd c p) s.claims with
+    | none => rw [h2] at h; simp only at h; split at h <;> cases h
+    | some j' =>
+      rw [h2] at h
+      simp only [Decision.inflight.injEq] at h
+      subst h
+      exact ⟨firstIdx_none _ _ h1, firstIdx_some _ _ _ h2⟩
+
+/-- and a pod placed on an existing node was admitted by that node -/
+theorem C04_existing_enabled {κ : Type} (ops : ClaimOps κ) (s : Pass κ) (p : PodD) (i : Nat)
+    (h : addDecision ops s p = .existing i) : ∃ e, s.existing[i]? = some e ∧ existingCanAdd e p = true := by
+  unfold addDecision at h
+  cases h1 : firstIdx (fun e => existingCanAdd e p) s.existing with
+  | some i' =>
+    rw [h1] at h
+    simp only [Decision.existing.injEq] at h
+    subst h
+    exact firstIdx_some _ _ _ h1
+  | none =>
+    rw [h1] at h
+    simp only at h
+    cases h2 : firstIdx (fun c => ops.canAdd c p) s.claims with
+    | some j => rw [h2] at h; cases h
+    | none => rw [h2] at h; simp only at h; split at h <;> cases h
+
+/-- **C04_pass_trace** — over a whole pass (any queue of pods, any start state, any NodeClaim admission function): every
+    step that opens a NodeClaim satisfies the guard in the state the step was taken in. -/
+theorem C04_pass_trace {κ : Type} (ops : ClaimOps κ) : ∀ (ps : List PodD) (s : Pass κ) (p : PodD) (d : Decision) (st : Pass κ),
+    (p, d, st) ∈ runPass ops s ps → d = .openNew → Needed ops st p := by
+  intro ps
+  induction ps with
+  | nil => intro s p d st h; simp [runPass] at h
+  | cons q rest ih =>
+    intro s p d st h hd
+    simp only [runPass, List.mem_cons] at h
+    cases h with
+    | inl heq =>
+      simp only [Prod.mk.injEq] at heq
+      obtain ⟨h1, h2, h3⟩ := heq
+      subst h1 h3
+      rw [h2] at hd
+      exact C04_open_only_if_needed ops _ _ hd
+    | inr hmem => exact ih _ p d st hmem hd
+
+/-- **C04_refusal_stable** — what a pass has put on a node can only make the node refuse more: a node that refuses a pod
+    keeps refusing it after any further pod was added (this is why "no node could admit it at the moment the NodeClaim
+    was opened" also covers the required terms the scheduler looked at earlier in the pass). -/
+theorem C04_refusal_stable (n : ExNode) (q p : PodD) (hq : 0 ≤ q.cpu ∧ 0 ≤ q.mem)
+    (h : existingCanAdd n p = false) : existingCanAdd (existingAdd n q) p = false := by
+  cases hc : existingCanAdd (existingAdd n q) p with
+  | false => rfl
+  | true => rw [canAdd_of_canAdd_after n q p hq hc] at h; cases h
+
+theorem C04_refusal_stable_many : ∀ (qs : List PodD) (n n' : ExNode) (p : PodD),
+    (∀ q ∈ qs, 0 ≤ q.cpu ∧ 0 ≤ q.mem) → addAll n qs = some n' → existingCanAdd n p = false → existingCanAdd n' p = false := by
+  intro qs
+  induction qs with
+  | nil => intro n n' p _ h hr; simp only [addAll, Option.some.injEq] at h; subst h; exact hr
+  | cons q rest ih =>
+    intro n n' p hnn h hr
+    simp only [addAll] at h
+    by_cases hc : existingCanAdd n q = true
+    · simp only [hc, if_true] at h
+      exact ih _ n' p (fun x hx => hnn x (by simp [hx])) h (C04_refusal_stable n q p (hnn q (by simp)) hr)
+    · simp only [hc, Bool.false_eq_true, if_false] at h; cases h
+
+/-! ## 2. The in-flight view: what the scheduler sees of a launched NodeClaim at each lifecycle stage -/
+
+/-- **C04_view_hides_taints** — until the node is initialized, `StateNode.Taints()` shows the scheduler neither a startup
+    taint of the NodeClaim nor a known ephemeral taint, whichever object (NodeClaim or Node) the taints are read from. -/
+theorem C04_view_hides_taints (n : SNode) (c : ClaimObj) (hc : n.claim = some c) (hi : n.initialized = false) :
+    ∀ t ∈ n.taints, knownEphemeral t = false ∧ c.startupTaints.any (fun st => matchTaint st t) = false := by
+  intro t ht
+  unfold SNode.taints at ht
+  simp only [hc, hi, Bool.not_false, if_true] at ht
+  have := (List.mem_filter.mp ht).2
+  simpa [Bool.or_eq_false_iff] using this
+
+/-- what may sit on the Node of NodeClaim `c` while it starts: the NodeClaim's own taints (registration copies them), its
+    startup taints, and known ephemeral taints -/
+def StartingTaints (c : ClaimObj) (ts : List Taint) : Prop :=
+  ∀ t ∈ ts, t ∈ c.taints ∨ c.startupTaints.any (fun st => matchTaint st t) = true ∨ knownEphemeral t = true
+
+/-- **C04_view_taints_tolerated** — a pod that tolerated the NodeClaim's taints when it was placed on the NodeClaim
+    tolerates what `StateNode.Taints()` shows at EVERY stage (NodeClaim only, Node unregistered, registered, initialized),
+    provided the Node carries nothing but the NodeClaim's taints, startup taints and known ephemeral taints while it
+    starts, and only the NodeClaim's taints once it is initialized (initialization waits for the others to go). -/
+theorem C04_view_taints_tolerated (n : SNode) (c : ClaimObj) (tols : List Toleration) (hc : n.claim = some c)
+    (htol : toleratesAll tols c.taints = true)
+    (hstart : ∀ nd, n.node = some nd → StartingTaints c nd.taints)
+    (hinit : n.initialized = true → ∀ nd, n.node = some nd → ∀ t ∈ nd.taints, t ∈ c.taints) :
+    toleratesAll tols n.taints = true := by
+  unfold toleratesAll at *
+  rw [List.all_eq_true] at *
+  intro t ht
+  unfold SNode.taints at ht
+  simp only [hc] at ht
+  cases hnode : n.node with
+  | none =>
+    simp only [hnode] at ht
+    by_cases hi : n.initialized = true
+    · simp only [hi, Bool.not_true, Bool.false_eq_true, if_false] at ht; exact htol t ht
+    · simp only [hi, Bool.not_false, if_true] at ht; exact htol t (List.mem_filter.mp ht).1
+  | some nd =>
+    simp only [hnode] at ht
+    by_cases hr : n.registered = true
+    · simp only [hr, Bool.not_true, Bool.false_eq_true, if_false] at ht
+      by_cases hi : n.initialized = true
+      · simp only [hi, Bool.not_true, Bool.false_eq_true, if_false] at ht
+        exact htol t (hinit hi nd hnode t ht)
+      · simp only [hi, Bool.not_false, if_true] at ht
+        obtain ⟨hmem, hf⟩ := List.mem_filter.mp ht
+        rcases hstart nd hnode t hmem with h1 | h2 | h3
+        · exact htol t h1
+        · simp [h2] at hf
+        · simp [h3] at hf
+    · simp only [hr, Bool.not_false, if_true] at ht
+      by_cases hi : n.initialized = true
+      · simp only [hi, Bool.not_true, Bool.false_eq_true, if_false] at ht; exact htol t ht
+      · simp only [hi, Bool.not_false, if_true] at ht; exact htol t (List.mem_filter.mp ht).1
+
+/-- **C04_view_alloc** — the in-flight node counts with the allocatable of the instance type it was launched as (what the
+    launch wrote into the NodeClaim's status) at EVERY stage, provided the Node reports, per resource, either nothing
+    yet (zero) or that same quantity while it starts, and that same quantity once it is initialized. -/
+theorem C04_view_alloc (n : SNode) (c : ClaimObj) (hc : n.claim = some c)
+    (hstart : ∀ nd, n.node = some nd →
+      (nd.alloc.cpu = 0 ∨ nd.alloc.cpu = c.alloc.cpu) ∧ (nd.alloc.mem = 0 ∨ nd.alloc.mem = c.alloc.mem) ∧
+      (nd.alloc.pods = 0 ∨ nd.alloc.pods = c.alloc.pods))
+    (hinit : n.initialized = true → ∀ nd, n.node = some nd → nd.alloc = c.alloc) :
+    n.allocatable = c.alloc := by
+  unfold SNode.allocatable
+  simp only [hc]
+  by_cases hi : n.initialized = true
+  · simp only [hi, Bool.not_true, Bool.false_eq_true, if_false]
+    cases hnode : n.node with
+    | none =>
+      -- an initialized managed node has a Node object
+      unfold SNode.initialized SNode.managed at hi
+      simp [hc, hnode] at hi
+    | some nd => simp [hinit hi nd hnode]
+  · simp only [hi, Bool.not_false, if_true]
+    cases hnode : n.node with
+    | none => rfl
+    | some nd =>
+      obtain ⟨h1, h2, h3⟩ := hstart nd hnode
+      have e1 : orIfZero nd.alloc.cpu c.alloc.cpu = c.alloc.cpu := by
+        unfold orIfZero; rcases h1 with h | h <;> simp [h]
+      have e2 : orIfZero nd.alloc.mem c.alloc.mem = c.alloc.mem := by
+        unfold orIfZero; rcases h2 with h | h <;> simp [h]
+      have e3 : orIfZero nd.alloc.pods c.alloc.pods = c.alloc.pods := by
+        unfold orIfZero; rcases h3 with h | h <;> simp [h]
+      simp only [e1, e2, e3]
+
+/-- **C04_view_labels** — on every key on which the registered Node agrees with its NodeClaim (registration copies the
+    NodeClaim's labels onto the Node), the scheduler reads the NodeClaim's label at every stage. -/
+theorem C04_view_labels (n : SNode) (c : ClaimObj) (k : String) (hc : n.claim = some c)
+    (hsync : n.registered = true → ∀ nd, n.node = some nd → nd.labels.lookup k = c.labels.lookup k) :
+    n.labels.lookup k = c.labels.lookup k := by
+  unfold SNode.labels
+  simp only [hc]
+  cases hnode : n.node with
+  | none => rfl
+  | some nd =>
+    simp only
+    by_cases hr : n.registered = true
+    · simp only [hr, Bool.not_true, Bool.false_eq_true, if_false]; exact hsync hr nd hnode
+    · simp only [hr, Bool.not_false, if_true]
+
+/-! ## 3. Re-admission -/
+
+/-- Full statement (what the property's consequence clause demands), for every launch the provider may choose and every
+    lifecycle stage:
+
+      pods `ps` were accepted by NodeClaim `c` in pass 1 and `c` was launched as a permitted instance type
+      → at each stage, re-running the pass places every pod of `ps` on capacity that already exists (no new NodeClaim).
+
+    As stated this is violated by the code: the second pass re-packs all pending pods first-fit over the nodes in name
+    order, so pods of another NodeClaim can take the room (known finding `C04-repass-reshuffle`, replayed by the corpus
+    witness of `c04.repass`).  Proved below is the per-node core, with the hypotheses the proof forces — each is one of the
+    "evaluated differently for the in-flight node" cases of the property text and is probed on the real code by
+    `c04.history` / `c04.view`:
+
+    **C04_inflight_readmits_partial** — let `n` be the StateNode of a launched NodeClaim `c` at ANY lifecycle stage and
+    `ps` the pods pass 1 placed on it: every pod tolerated `c`'s taints, is compatible with the labels of the launch, the
+    pods' host ports were free in this order, and their summed requests plus the daemon overhead `g` reserved for the
+    launched instance type fit its allocatable (`C01_filter_sound` gives exactly this for every instance type that
+    survives the NodeClaim's filter).  If (H1) the daemonset reservation `d` the scheduler computes for the node does not
+    exceed `g`, (H2) the Node carries only the NodeClaim's taints, startup taints and known ephemeral taints while it
+    starts and only the NodeClaim's taints once initialized, (H3) the Node reports per resource zero or the launched
+    allocatable while it starts and the launched allocatable once initialized, (H4) the registered Node agrees with the
+    NodeClaim on the labels the pods constrain — then the node, as the scheduler sees it, accepts ALL pods of `ps` one
+    after the other: no pod of `ps` needs new capacity as long as the node only holds pods of `ps`. -/
+theorem C04_inflight_readmits_partial (n : SNode) (c : ClaimObj) (ps : List PodD)
+    (dCPU dMem dPods gCPU gMem gPods : Int) (hc : n.claim = some c)
+    (htol : ∀ p ∈ ps, toleratesAll p.tolerations c.taints = true)
+    (hlab : ∀ p ∈ ps, (labelReqs c.labels).compatible (podReqs p.exprs) [] = true)
+    (hports : portsChain [] ps = true)
+    (hnn : ∀ p ∈ ps, 0 ≤ p.cpu ∧ 0 ≤ p.mem)
+    (hfit : sumCPU ps + gCPU ≤ c.alloc.cpu ∧ sumMem ps + gMem ≤ c.alloc.mem ∧ (ps.length : Int) + gPods ≤ c.alloc.pods)
+    (H1 : dCPU ≤ gCPU ∧ dMem ≤ gMem ∧ dPods ≤ gPods)
+    (H2 : (∀ nd, n.node = some nd → StartingTaints c nd.taints) ∧
+          (n.initialized = true → ∀ nd, n.node = some nd → ∀ t ∈ nd.taints, t ∈ c.taints))
+    (H3 : (∀ nd, n.node = some nd →
+            (nd.alloc.cpu = 0 ∨ nd.alloc.cpu = c.alloc.cpu) ∧ (nd.alloc.mem = 0 ∨ nd.alloc.mem = c.alloc.mem) ∧
+            (nd.alloc.pods = 0 ∨ nd.alloc.pods = c.alloc.pods)) ∧
+          (n.initialized = true → ∀ nd, n.node = some nd → nd.alloc = c.alloc))
+    (H4 : ∀ p ∈ ps, ∀ kv ∈ podReqs p.exprs, n.registered = true → ∀ nd, n.node = some nd → nd.labels.lookup kv.1 = c.labels.lookup kv.1) :
+    ∃ n', addAll (n.asExisting dCPU dMem dPods) ps = some n' := by
+  have halloc := C04_view_alloc n c hc H3.1 H3.2
+  apply addAll_succeeds
+  · intro p hp
+    simp only [SNode.asExisting]
+    exact C04_view_taints_tolerated n c p.tolerations hc (htol p hp) H2.1 H2.2
+  · intro p hp
+    simp only [SNode.asExisting]
+    rw [compatible_labels_congr n.labels c.labels (podReqs p.exprs)
+      (fun kv hkv => C04_view_labels n c kv.1 hc (H4 p hp kv hkv))]
+    exact hlab p hp
+  · simpa [SNode.asExisting] using hports
+  · exact hnn
+  · simp only [SNode.asExisting, halloc]; omega
+  · simp only [SNode.asExisting, halloc]; omega
+  · simp only [SNode.asExisting, halloc]; omega
+
+/-! ## 4. No pass while a created NodeClaim is unlaunched; deleting nodes are not capacity -/
+
+/-- **C04_synced_gate** — whenever `Cluster.Synced` answers true, no NodeClaim known to cluster state has an empty
+    provider id. -/
+theorem C04_synced_gate (s : Sync) (h : s.synced.1 = true) : ∀ kv ∈ s.claims, kv.2 ≠ "" := by
+  have hnu : noneUnlaunched s.claims = true := by
+    unfold Sync.synced at h
+    by_cases hs : s.hasSynced = true
+    · simpa [hs] using h
+    · simp only [hs, Bool.false_eq_true, if_false] at h
+      by_cases hn : noneUnlaunched s.claims = true
+      · exact hn
+      · simp [hn] at h
+  intro kv hkv
+  have := List.all_eq_true.mp hnu kv hkv
+  simpa using this
+
+/-- what `Provisioner.Create` does to cluster state (`fact_create_order`, `fact_update_records`) leaves it unlaunched -/
+theorem C04_create_blocks (st : Sync × List Sync) (name : String) : Unlaunched name (step st (.create name)).1 := by
+  simp [Unlaunched, step, Sync.updateNodeClaim, lookup_setKV]
+
+/-- **C04_no_pass_while_unlaunched** — over ALL histories: once cluster state has recorded a NodeClaim without provider id
+    (which `Provisioner.Create` does before it returns), no sequence of events that neither launches nor deletes that
+    NodeClaim — other NodeClaims created, launched, deleted, nodes appearing, any number of `Provisioner.Reconcile` rounds —
+    contains a scheduling pass. -/
+theorem C04_no_pass_while_unlaunched (name : String) : ∀ (evs : List Ev) (st : Sync × List Sync),
+    Unlaunched name st.1 → (∀ e ∈ evs, touches name e = false) →
+    (run st evs).2 = st.2 ∧ Unlaunched name (run st evs).1 := by
+  intro evs
+  induction evs with
+  | nil => intro st h _; exact ⟨rfl, h⟩
+  | cons e rest ih =>
+    intro st h hev
+    obtain ⟨h1, h2⟩ := step_keeps_unlaunched name st e h (hev e (by simp))
+    have := ih (step st e) h1 (fun x hx => hev x (by simp [hx]))
+    simp only [run, List.foldl_cons] at *
+    exact ⟨by rw [this.1, h2], this.2⟩
+
+/-- **C04_passes_only_when_synced** — every pass of every history ran in a state without unlaunched NodeClaims. -/
+theorem C04_passes_only_when_synced : ∀ (evs : List Ev) (st : Sync × List Sync),
+    (∀ s ∈ st.2, noneUnlaunched s.claims = true) → ∀ s ∈ (run st evs).2, noneUnlaunched s.claims = true := by
+  intro evs
+  induction evs with
+  | nil => intro st h; exact h
+  | cons e rest ih =>
+    intro st h
+    simp only [run, List.foldl_cons]
+    apply ih
+    cases e with
+    | reconcile =>
+      simp only [step]
+      cases hsy : st.1.synced with
+      | mk ok s' =>
+        simp only
+        by_cases hok : ok = true
+        · simp only [hok, if_true]
+          intro s hs
+          rcases List.mem_append.mp hs with h1 | h1
+          · exact h s h1
+          · simp only [List.mem_singleton] at h1
+            subst h1
+            -- the state after a successful check has the same NodeClaim table as before
+            have hcl : s.claims = st.1.claims := by
+              unfold Sync.synced at hsy
+              by_cases hs' : st.1.hasSynced = true
+              · simp only [hs', if_true, Prod.mk.injEq] at hsy; rw [← hsy.2]
+              · simp only [hs', Bool.false_eq_true, if_false] at hsy
+                split at hsy
+                · simp only [Prod.mk.injEq] at hsy; rw [← hsy.2]
+                · simp only [Prod.mk.injEq] at hsy
+                  rw [← hsy.2]; split <;> rfl
+            rw [hcl]
+            have hg := C04_synced_gate st.1 (by rw [hsy]; exact hok)
+            unfold noneUnlaunched
+            rw [List.all_eq_true]
+            intro kv hkv
+            simpa using hg kv hkv
+        · simp only [hok, Bool.false_eq_true, if_false]; exact h
+    | create n => exact h
+    | launch n pid => exact h
+    | delete n => exact h
+    | nodeSeen n => exact h
+
+/-- **C04_deleting_excluded** — `StateNodes.Active()` keeps no node that is marked for deletion, whose NodeClaim is being
+    deleted / terminated, or (unmanaged) whose Node is being deleted. -/
+theorem C04_deleting_excluded (ns : List SNode) :
+    (∀ n ∈ active ns, n.markedForDeletion = false) ∧
+    (∀ n ∈ ns, n.marked = true → n ∉ active ns) ∧
+    (∀ n ∈ ns, ∀ c, n.claim = some c → c.deleting = true → n ∉ active ns) := by
+  refine ⟨?_, ?_, ?_⟩
+  · intro n hn
+    have := (List.mem_filter.mp hn).2
+    simpa using this
+  · intro n _ hm hn
+    have := (List.mem_filter.mp hn).2
+    simp [SNode.markedForDeletion, hm] at this
+  · intro n _ c hc hd hn
+    have := (List.mem_filter.mp hn).2
+    simp [SNode.markedForDeletion, hc, hd] at this
+
+/-! ## The recorded findings: the literal consequence clause / the Kubernetes reading of OR-ed terms fail for the code as it is -/
+
+def wNode (name : String) (cpu : Int) : ExNode :=
+  { labels := [("kubernetes.io/hostname", name)], taints := [], remCPU := cpu, remMem := 16000, remPods := 10, ports := [] }
+def wPod (cpu : Int) : PodD := { cpu := cpu, mem := 128, tolerations := [], ports := [], exprs := [] }
+/-- NodeClaims of the pass: a cpu counter over the largest (4-cpu) instance type -/
+def wOps : ClaimOps Int :=
+  { canAdd := fun used p => decide (used + p.cpu ≤ 4000), add := fun used p => used + p.cpu, openFor := fun p => if p.cpu ≤ 4000 then some 0 else none }
+
+/-- `C04-repass-reshuffle` (corpus/c04.repass/reshuffle.json, replayed on the real provisioner every run): pass 1 packs
+    2+2 cpu on one NodeClaim and 1.5+1.5 cpu on another; the second is launched as the permitted 3-cpu type and its node
+    sorts first.  Pass 2, first-fit in node order, opens a NodeClaim for the last pod — although each node re-admits
+    exactly the pods pass 1 had placed on its NodeClaim. -/
+theorem C04_repass_reshuffle_witness :
+    (runPass wOps { existing := [], claims := [] } [wPod 2000, wPod 2000, wPod 1500, wPod 1500]).map (·.2.1) =
+      [.openNew, .inflight 0, .openNew, .inflight 1] ∧
+    (runPass wOps { existing := [wNode "a" 3000, wNode "b" 4000], claims := [] } [wPod 2000, wPod 2000, wPod 1500, wPod 1500]).map (·.2.1) =
+      [.existing 0, .existing 1, .existing 1, .openNew] ∧
+    (addAll (wNode "a" 3000) [wPod 1500, wPod 1500]).isSome = true ∧ (addAll (wNode "b" 4000) [wPod 2000, wPod 2000]).isSome = true := by decide
+
+/-- `C04-or-term-order` (corpus/c04.pass/or-term.json): the pod's requirements are built from the FIRST required term only
+    (`updateCachedPodData`); a node in z2 refuses a pod that requires "zone z1 OR zone z2" until relaxation drops the first
+    term — which `trySchedule` does only after a NEW NodeClaim could not be opened either (`fact_relax_after_add`). -/
+def wTwoTerms : PodSpecM :=
+  { cpu := 500, mem := 128, tolerations := [], ports := [], sel := [],
+    aff := { required := [[{ key := "topology.kubernetes.io/zone", op := .in_, vals := ["z1"] }], [{ key := "topology.kubernetes.io/zone", op := .in_, vals := ["z2"] }]], preferred := [] } }
+def wNodeZ2 : ExNode :=
+  { labels := [("topology.kubernetes.io/zone", "z2"), ("kubernetes.io/hostname", "n1")], taints := [], remCPU := 4000, remMem := 16000, remPods := 10, ports := [] }
+theorem C04_or_term_witness :
+    existingCanAdd wNodeZ2 (podDOf false wTwoTerms) = false ∧
+    (relaxStep wTwoTerms.aff).isSome = true ∧
+    existingCanAdd wNodeZ2 (podDOf false { wTwoTerms with aff := ((relaxStep wTwoTerms.aff).getD wTwoTerms.aff) }) = true := by decide
+
+/-! ## Non-vacuity -/
+
+def tStartup : Taint := { key := "startup", value := "", effect := "NoSchedule" }
+def tDedicated : Taint := { key := "dedicated", value := "x", effect := "NoSchedule" }
+def tNotReady : Taint := { key := "node.kubernetes.io/not-ready", value := "", effect := "NoSchedule" }
+def tUnregistered : Taint := { key := "karpenter.sh/unregistered", value := "", effect := "NoExecute" }
+
+def claimA : ClaimObj :=
+  { name := "pool-a-1", labels := [("karpenter.sh/nodepool", "pool-a"), ("topology.kubernetes.io/zone", "z1")],
+    taints := [tDedicated], startupTaints := [tStartup], alloc := { cpu := 4000, mem := 8192, pods := 10 }, deleting := false }
+
+/-- the Node as the kubelet registers it: startup + not-ready + unregistered taints, cpu not reported yet -/
+def nodeStarting : NodeObj :=
+  { name := "pool-a-1", labels := [("karpenter.sh/nodepool", "pool-a"), ("topology.kubernetes.io/zone", "z1"), ("karpenter.sh/registered", "true")],
+    taints := [tDedicated, tStartup, tNotReady, tUnregistered], alloc := { cpu := 0, mem := 8192, pods := 10 } }
+
+def snRegistered : SNode := { node := some nodeStarting, claim := some claimA, marked := false, nodeDeleting := false }
+
+def podA : PodD :=
+  { cpu := 1500, mem := 1024, tolerations := [{ key := "dedicated", operator := "Exists", value := "", effect := "" }], ports := [],
+    exprs := [{ key := "topology.kubernetes.io/zone", op := .in_, vals := ["z1"] }] }
+
+example : snRegistered.registered = true ∧ snRegistered.initialized = false := by decide
+example : snRegistered.taints = [tDedicated] := by decide
+example : snRegistered.allocatable = claimA.alloc := by decide
+/-- the re-admission theorem applies to a concrete registered, not yet initialized node with two pods … -/
+example : ∃ n', addAll (snRegistered.asExisting 500 128 1) [podA, podA] = some n' := by
+  refine C04_inflight_readmits_partial snRegistered claimA [podA, podA] 500 128 1 500 128 1 rfl
+    (by decide) (by decide) (by decide) (by decide) (by decide) (by decide) ⟨?_, ?_⟩ ⟨?_, ?_⟩ ?_
+  · intro nd h; cases h; intro t ht
+    simp only [nodeStarting, List.mem_cons, List.not_mem_nil, or_false] at ht
+    rcases ht with rfl | rfl | rfl | rfl
+    · exact Or.inl (by decide)
+    · exact Or.inr (Or.inl (by decide))
+    · exact Or.inr (Or.inr (by decide))
+    · exact Or.inr (Or.inr (by decide))
+  · intro h; exact absurd h (by decide)
+  · intro nd h; cases h; exact ⟨Or.inl rfl, Or.inr rfl, Or.inr rfl⟩
+  · intro h; exact absurd h (by decide)
+  · intro p hp kv hkv _ nd h
+    cases h
+    simp only [List.mem_cons, List.not_mem_nil, or_false, or_self] at hp
+    subst hp
+    have : kv = ("topology.kubernetes.io/zone", ({ key := "topology.kubernetes.io/zone", complement := false, values := ["z1"] } : Req)) := by
+      have hk : podReqs podA.exprs = [("topology.kubernetes.io/zone", ({ key := "topology.kubernetes.io/zone", complement := false, values := ["z1"] } : Req))] := by decide
+      rw [hk] at hkv; simpa using hkv
+    subst this
+    decide
+/-- … and computes: both pods are accepted, a third one is refused (3 × 1500 + 500 > 4000) -/
+example : (addAll (snRegistered.asExisting 500 128 1) [podA, podA]).isSome = true ∧
+          addAll (snRegistered.asExisting 500 128 1) [podA, podA, podA] = none := by decide
+/-- H3 is needed: a Node that reports LESS than the launched allocatable makes the in-flight node refuse its own pods -/
+example : addAll (({ snRegistered with node := some { nodeStarting with alloc := { cpu := 2000, mem := 8192, pods := 10 } } } : SNode).asExisting 500 128 1)
+    [podA, podA] = none := by decide
+/-- H2 is needed: a lasting taint the NodeClaim does not have (here: on an initialized node) keeps the pod off -/
+def nodeInitTainted : NodeObj :=
+  { nodeStarting with labels := nodeStarting.labels ++ [("karpenter.sh/initialized", "true")], taints := [tDedicated, tStartup], alloc := claimA.alloc }
+example : addAll (({ snRegistered with node := some nodeInitTainted } : SNode).asExisting 500 128 1) [podA] = none := by decide
+
+/-- the guard theorem on a concrete pass: one existing node with 1000m left, pods of 800m each; NodeClaims of the pass
+    modelled by a cpu counter with capacity 2000m -/
+def opsDemo : ClaimOps Int :=
+  { canAdd := fun used p => decide (used + p.cpu ≤ 2000), add := fun used p => used + p.cpu, openFor := fun p => if p.cpu ≤ 2000 then some 0 else none }
+def exDemo : ExNode := { labels := [("kubernetes.io/hostname", "n1")], taints := [], remCPU := 1000, remMem := 4096, remPods := 10, ports := [] }
+def podDemo : PodD := { cpu := 800, mem := 64, tolerations := [], ports := [], exprs := [] }
+example : (runPass opsDemo { existing := [exDemo], claims := [] } [podDemo, podDemo, podDemo, podDemo, podDemo]).map (·.2.1) =
+    [.existing 0, .openNew, .inflight 0, .openNew, .inflight 1] := by decide
+
+/-- the gate on a concrete history: create a, reconcile (blocked), create b, launch a, reconcile (blocked by b),
+    launch b, reconcile (runs) -/
+def sync0 : Sync := { hasSynced := true, claims := [], nodes := [], apiClaims := [], apiNodes := [] }
+example : ((run (sync0, []) [.create "a", .reconcile, .create "b", .launch "a" "i-1", .reconcile, .launch "b" "i-2", .reconcile]).2).length = 1 := by decide
+example : Unlaunched "a" (run (sync0, []) [.create "a", .reconcile, .create "b", .launch "b" "i-2", .reconcile]).1 ∧
+    (run (sync0, []) [.create "a", .reconcile, .create "b", .launch "b" "i-2", .reconcile]).2 = [] :=
+  ⟨(C04_no_pass_while_unlaunched "a" [.reconcile, .create "b", .launch "b" "i-2", .reconcile] (step (sync0, []) (.create "a"))
+      (C04_create_blocks _ "a") (by decide)).2,
+   (C04_no_pass_while_unlaunched "a" [.reconcile, .create "b", .launch "b" "i-2", .reconcile] (step (sync0, []) (.create "a"))
+      (C04_create_blocks _ "a") (by decide)).1⟩
+
+/-- deleting nodes -/
+example : (active [snRegistered, { snRegistered with marked := true }, { snRegistered with claim := some { claimA with deleting := true } }]).length = 1 := by decide
+
 end Karp.C04
